@@ -38,3 +38,8 @@ Definition type_of_val (v : val) : data_type :=
   | VRange _ _ => T_Range | VSlice _ _ => T_Slice | VPartial _ _ => T_Partial
   | VExpr _ => T_Expression | VExternal _ => T_External | VCustom => T_Custom
   end.
+
+(* item [z] of a list for a non-negative integer index: the bound is compared in Z
+   first, so that an index far beyond the end never becomes a unary number *)
+Definition nth_z {A : Type} (l : list A) (z : Z) : option A :=
+  if (z <? Z.of_nat (length l))%Z then nth_error l (Z.to_nat z) else None.
